@@ -565,6 +565,9 @@ def negative(draw, tier):
     return {"kind": "negative", "why": "lenient", "expr": expr, "lenient": py, "slot": "cond", "allow": True}
 
 
+FUZZ_RUNS = {"thorough": 4000}  # libFuzzer runs per shard of the coverage-guided sub-engine (vcheck/fuzz.py)
+
+
 def strategy(tier):
     return st.one_of(positive(tier), positive(tier), positive(tier), negative(tier))
 
